@@ -437,8 +437,11 @@ def set_order(repo, chk):
                     else:
                         chk.ok('C09.5', 'R10', f.site(q), f'for {ast.unparse(q.target)} in {ast.unparse(q.iter)[:80]}', f'commutative consumer: {why}')
                     continue
+                into_array = isinstance(p, ast.Call) and (f.module.dotted(p.func) or '') in ('numpy.fromiter', 'numpy.array', 'numpy.asarray') and isinstance(par.get(p), ast.Assign)
                 if wrapped:
                     chk.ok('C09.5', 'R10', f.site(n), ast.unparse(p)[:100], 'order-blind consumer of the comprehension')
+                elif into_array:
+                    chk.unsure('C09.5', 'R10', f.site(n), ast.unparse(p)[:100], 'an array is filled in set-iteration order; whether that order is observable depends on how the array is consumed (element-wise operations and commutative scatter updates are order-blind), which is not classified')
                 elif isinstance(n, ast.GeneratorExp) and isinstance(p, ast.Call) and isinstance(p.func, ast.Attribute) and p.func.attr == 'join':
                     chk.bad('C09.5', 'R10', f.site(n), ast.unparse(p)[:100], 'a string is joined in set order')
                 else:
